@@ -378,6 +378,9 @@ func c10(ctx *Ctx) (*Outcome, error) {
 	for i := 0; i < 6; i++ {
 		cases = append(cases, aliasDefinitionCase(i))
 	}
+	for i := 0; i < 4; i++ {
+		cases = append(cases, sameNameDefTwoFilesCase(i))
+	}
 	for i := 0; i < 8; i++ {
 		cases = append(cases, bothDefsKeywordsCase(i))
 	}
@@ -489,7 +492,7 @@ func c10(ctx *Ctx) (*Outcome, error) {
 
 // reC10Stratum: the hand-built reference layouts; each of them is generated and built by the unchanged tool, so a
 // refusal or unbuildable output is a reference form that stopped being transparent.
-var reC10Stratum = regexp.MustCompile(`^(file-cycle|same-stem|same-base-dir|self-ref-twin|symlink-dir|cross-package|both-defs-keywords)/`)
+var reC10Stratum = regexp.MustCompile(`^(file-cycle|same-stem|same-base-dir|self-ref-twin|symlink-dir|same-name-def-two-files|cross-package|both-defs-keywords)/`)
 
 // sameBaseDirCase: schema files with the SAME base name in different directories, one referring to definitions of
 // the others by relative path while holding definitions of the same names itself; also a reference that spells out
@@ -611,6 +614,41 @@ func symlinkDirCase(i int) *sem.Case {
 	good := jsonx.Obj{{K: "amount", V: jsonx.Num("12.5")}, {K: "currency", V: "EUR"}}
 	for _, total := range []any{good, jsonx.Obj{{K: "cents", V: jsonx.N(1250)}}, jsonx.Obj{{K: "amount", V: jsonx.N(1)}}, jsonx.Obj{{K: "amount", V: jsonx.N(1)}, {K: "currency", V: "E"}}, jsonx.Obj{}} {
 		c.Docs = append(c.Docs, docgen.Doc{V: jsonx.Obj{{K: "order", V: jsonx.Obj{{K: "id", V: jsonx.N(1)}, {K: "total", V: total}}}}, Class: "deep", Label: "symlink-dir"})
+	}
+	return c
+}
+
+// sameNameDefTwoFilesCase: a definition name that exists in the referring document AND in a library document, with
+// other content, both referred to from composition members (allOf / anyOf lists resolve their references ahead of the
+// merge) of one referring document, in both orders: each member means the definition of the document it names.
+func sameNameDefTwoFilesCase(i int) *sem.Case {
+	local := &sg.Schema{Types: []string{"object"}, Props: []sg.Prop{{Name: "name", S: &sg.Schema{Types: []string{"string"}, MinLen: 1}}}, Required: []string{"name"}}
+	remote := &sg.Schema{Types: []string{"object"}, Props: []sg.Prop{{Name: "sku", S: &sg.Schema{Types: []string{"integer"}, Min: sg.Fp(100)}}}, Required: []string{"sku"}}
+	extra := &sg.Schema{Types: []string{"object"}, Props: []sg.Prop{{Name: "flag", S: &sg.Schema{Types: []string{"boolean"}}}}, Required: []string{"flag"}}
+	lib := &sg.Schema{Types: []string{"object"}, Defs: []sg.Prop{{Name: "Item", S: remote}}}
+	refL := func() *sg.Schema { return &sg.Schema{Ref: "#/$defs/Item", Target: local} }
+	refR := func() *sg.Schema { return &sg.Schema{Ref: "lib/parts.json#/$defs/Item", Target: remote} }
+	refE := func() *sg.Schema { return &sg.Schema{Ref: "#/$defs/Extra", Target: extra} }
+	comp := func(m ...*sg.Schema) *sg.Schema {
+		if (i/2)%2 == 1 {
+			return &sg.Schema{AllOf: m[:1]}
+		}
+		return &sg.Schema{AnyOf: m}
+	}
+	root := &sg.Schema{Types: []string{"object"}, Defs: []sg.Prop{{Name: "Item", S: local}, {Name: "Extra", S: extra}}}
+	if i%2 == 0 {
+		root.Props = []sg.Prop{{Name: "alocal", S: comp(refL(), refE())}, {Name: "bremote", S: comp(refR(), refE())}}
+	} else {
+		root.Props = []sg.Prop{{Name: "aremote", S: comp(refR(), refE())}, {Name: "blocal", S: comp(refL(), refE())}}
+	}
+	c := &sem.Case{Root: root, Sig: fmt.Sprintf("same-name-def-two-files/%d", i%4), NoAuto: true, Extra: []batch.File{{Path: "lib/parts.json", Data: jsonx.MarshalIndent(lib.ToJSON())}}}
+	lk, rk := "alocal", "bremote"
+	if i%2 == 1 {
+		lk, rk = "blocal", "aremote"
+	}
+	for _, d := range []jsonx.Obj{{{K: rk, V: jsonx.Obj{{K: "sku", V: jsonx.N(150)}}}}, {{K: rk, V: jsonx.Obj{{K: "name", V: "x"}}}}, {{K: rk, V: jsonx.Obj{{K: "sku", V: jsonx.N(5)}}}}, {{K: lk, V: jsonx.Obj{{K: "name", V: "x"}}}}, {{K: lk, V: jsonx.Obj{{K: "sku", V: jsonx.N(150)}}}},
+		{{K: lk, V: jsonx.Obj{{K: "name", V: "x"}}}, {K: rk, V: jsonx.Obj{{K: "sku", V: jsonx.N(150)}}}}, {{K: rk, V: jsonx.Obj{}}}, {{K: lk, V: jsonx.Obj{}}}} {
+		c.Docs = append(c.Docs, docgen.Doc{V: d, Class: "deep", Label: "same-name-def-two-files"})
 	}
 	return c
 }
